@@ -76,7 +76,15 @@ fn main() {
                 let mut finds = Vec::new();
                 let mut i = wk as u64;
                 while i < n {
-                    let c = c17::history(seed, i);
+                    let mut c = c17::history(seed, i);
+                    // verdicts that rest on a generous wall-clock watchdog are only believed if they repeat
+                    if c.violations.first().map(|v| ["get_hang", "harness", "capacity", "unusable_connection_issued"].contains(&v.oracle)).unwrap_or(false) {
+                        let again = c17::history(seed, i);
+                        if again.violations.first().map(|v| v.oracle) != c.violations.first().map(|v| v.oracle) {
+                            cov.inconclusive.push(format!("watchdog verdict {} of case {} did not repeat", c.violations[0].oracle, i));
+                            c = again;
+                        }
+                    }
                     cov.evaluations += 1;
                     cov.events += c.events;
                     let _ = cov.distinct.insert(c.hash);
